@@ -448,7 +448,7 @@ def finish(pid, tier, seed, jobs, classes_info, t_start, deadline, extra_cov=Non
         with open(rp, "w") as fh:
             json.dump(rec, fh, indent=1)
         vio_lines.append("VIOLATION property=%s replay=%s" % (prop, rp))
-        if n < 25:
+        if n < int(os.environ.get('VERIF_LOG_CLUSTERS', '12')):
             w = dict(f["witness"]) if isinstance(f["witness"], dict) else {}
             w.pop("args", None)
             log("  violation: %s %s:%s count=%d fp=%s in %d configs (%s ...) %s" % (
@@ -490,13 +490,13 @@ def finish(pid, tier, seed, jobs, classes_info, t_start, deadline, extra_cov=Non
 
     for eid, (ent, n) in sorted(matched_entries.items()):
         print("KNOWN-FINDING: property=%s %s [%s; %d failing (configuration, subject, operation) cases]" % (ent["property"], ent["what"], eid, n))
-    for l in vio_lines[:60]:
+    for l in vio_lines[:20]:
         print(l)
-    if len(vio_lines) > 60:
-        print("... and %d more VIOLATION clusters (see %s/replays)" % (len(vio_lines) - 60, VERIF))
+    if len(vio_lines) > 20:
+        print("... and %d more VIOLATION clusters (see %s/replays)" % (len(vio_lines) - 20, VERIF))
     if nondeterministic:
-        for f, outs in nondeterministic[:10]:
-            log("NON-REPRODUCED failure: %s %s:%s %r" % (f["job"].cfg.name, f["subject"], f["op"], outs))
+        for f, outs in nondeterministic[:5]:
+            log("NON-REPRODUCED failure: %s %s:%s %s" % (f["job"].cfg.name, f["subject"], f["op"], repr(outs)[:300]))
         log("framework error: %d failures did not reproduce on replay" % len(nondeterministic))
     log("[%s %s] jobs=%d skipped=%d evals=%d failures=%d known=%d violations=%d wall=%.0fs" % (
         pid, tier, len(jobs), skipped, stats_total["evals"], len(failures), len(failures) - len(violations), len(violations),
